@@ -98,6 +98,44 @@ pub fn run_case_once(case: &Case, prefix: &[ChoiceRec]) -> (ExecResult, Vec<Entr
     (res, log, lh)
 }
 
+/// Runs the case once, unhooked, on a REAL tokio current-thread runtime (paused clock, which
+/// tokio advances only when every task is idle - the discrete-event semantics of the virtual
+/// clock). No backend is installed, so the shims forward to tokio; only the harness' own
+/// `Delay` provider is pointed at tokio's clock so that handler timeouts are on it too.
+#[cfg(feature = "rt-tokio")]
+pub fn run_case_real(case: &Case) -> Vec<Entry> {
+    use std::future::Future;
+    case.scene.pre();
+    world::reset(case.scene.roles());
+    world::set_real_mode(true);
+    futures_timer::verif_set_delay_provider(Some(Box::new(|d| Box::pin(tokio::time::sleep(d)) as std::pin::Pin<Box<dyn Future<Output = ()> + Send>>)));
+    let rt = tokio::runtime::Builder::new_current_thread().enable_all().start_paused(true).build().expect("tokio runtime");
+    let local = tokio::task::LocalSet::new();
+    let horizon = case.exec.horizon.min(100_000);
+    local.block_on(&rt, async {
+        let start = tokio::time::Instant::now();
+        let (exec, clients) = Exec::collector();
+        case.scene.setup(&exec);
+        let futs: Vec<_> = clients.borrow_mut().drain(..).collect();
+        for (_, f) in futs {
+            tokio::task::spawn_local(f);
+        }
+        // the paused clock only advances when everything is idle, so sleeping to the horizon
+        // lets the scene run exactly as far as the virtual executor lets it
+        tokio::time::sleep_until(start + Duration::from_millis(horizon)).await;
+        // tasks woken at the horizon instant still run to quiescence
+        for _ in 0..200 {
+            tokio::task::yield_now().await;
+        }
+    });
+    world::begin_teardown();
+    drop(local);
+    drop(rt);
+    futures_timer::verif_set_delay_provider(None);
+    world::set_real_mode(false);
+    world::take_log()
+}
+
 /// Hash of what an execution *did* as seen by users: callback events in order plus the result
 /// of every client operation (not the interleaving of operation begin/end stamps).
 pub fn outcome_hash(log: &[Entry]) -> u64 {
@@ -200,6 +238,20 @@ fn explore_case(idx: usize, case: &Case, deadline: Option<Instant>, want_sample:
                         },
                     )
                 });
+            }
+            // cross-check against a real tokio runtime: its one schedule is one of the explored
+            // interleavings, so its outcome must be among the explored outcomes
+            #[cfg(feature = "rt-tokio")]
+            if complete && !stats.pruned && split.is_none() && outcomes.len() < MAX_OUTCOMES && case.exec.cancel.is_none() && case.exec.max_early_fires == 0 && std::env::var_os("VERIF_NO_REAL").is_none() {
+                let rlog = run_case_real(case);
+                let h = outcome_hash(&rlog);
+                out["real_checked"] = json!(1);
+                if outcomes.contains(&h) {
+                    out["real_ok"] = json!(1);
+                } else {
+                    out["real_ok"] = json!(0);
+                    out["real_mismatch"] = json!({"case": case.desc, "log": rlog.iter().map(fmt_entry).collect::<Vec<_>>()});
+                }
             }
             out["schedules"] = json!(stats.schedules);
             out["states"] = json!(stats.states);
@@ -457,7 +509,7 @@ pub fn check_main(prop: &Property, tier: Tier) -> i32 {
                 by_idx.insert(idx, r);
             }
             Some(acc) => {
-                for k in ["schedules", "states", "transitions", "replayed_steps", "outcomes", "reruns", "end_quiescent", "end_horizon", "structure_runs"] {
+                for k in ["schedules", "states", "transitions", "replayed_steps", "outcomes", "reruns", "end_quiescent", "end_horizon", "structure_runs", "real_checked", "real_ok"] {
                     acc[k] = json!(acc[k].as_u64().unwrap_or(0) + r[k].as_u64().unwrap_or(0));
                 }
                 acc["max_depth"] = json!(acc["max_depth"].as_u64().unwrap_or(0).max(r["max_depth"].as_u64().unwrap_or(0)));
@@ -503,6 +555,8 @@ pub fn check_main(prop: &Property, tier: Tier) -> i32 {
     let g = |v: &Value, k: &str| v.get(k).and_then(Value::as_u64).unwrap_or(0);
     let (mut schedules, mut states, mut transitions, mut replayed, mut outcomes, mut reruns) = (0u64, 0u64, 0u64, 0u64, 0u64, 0u64);
     let (mut end_q, mut end_h) = (0u64, 0u64);
+    let (mut real_checked, mut real_ok) = (0u64, 0u64);
+    let mut real_mismatches: Vec<Value> = vec![];
     let mut max_depth = 0u64;
     let mut complete_cases = 0u64;
     let mut skipped = 0u64;
@@ -527,6 +581,13 @@ pub fn check_main(prop: &Property, tier: Tier) -> i32 {
         replayed += g(r, "replayed_steps");
         outcomes += g(r, "outcomes");
         reruns += g(r, "reruns");
+        real_checked += g(r, "real_checked");
+        real_ok += g(r, "real_ok");
+        if let Some(m) = r.get("real_mismatch") {
+            if real_mismatches.len() < 5 {
+                real_mismatches.push(m.clone());
+            }
+        }
         end_q += g(r, "end_quiescent");
         end_h += g(r, "end_horizon");
         max_depth = max_depth.max(g(r, "max_depth"));
@@ -630,8 +691,11 @@ pub fn check_main(prop: &Property, tier: Tier) -> i32 {
         "coverage": {
             "states": states.max(1),
             "transitions": transitions.max(1),
-            "traces_validated_against_impl": schedules,
-            "traces_validated_note": "every explored execution is an execution of the real hannibal code under the controlled executor (no separate model of hannibal); conformance of the runtime shims to the real runtimes is checked by `mc conformance` in setup",
+            "traces_validated_against_impl": real_ok,
+            "traces_validated_note": "number of cases that were additionally run, unhooked, on a REAL tokio current-thread runtime (paused clock) and whose outcome was found among the outcomes explored under the controlled executor; the explored executions themselves (see `schedules`) are executions of the real hannibal code, there is no separate model of hannibal",
+            "real_runtime_runs": real_checked,
+            "real_runtime_outcome_not_among_explored": real_checked - real_ok,
+            "real_runtime_mismatch_samples": real_mismatches,
             "samples": samples,
             "exhaustive": exhaustive,
             "cases": ncases,
@@ -686,6 +750,9 @@ pub fn check_main(prop: &Property, tier: Tier) -> i32 {
         caps,
         t0.elapsed().as_secs_f64()
     );
+    if real_checked > real_ok {
+        println!("WARNING: {} of {} real-tokio runs produced an outcome that is not among the explored ones (see evidence: real_runtime_mismatch_samples)", real_checked - real_ok, real_checked);
+    }
     if single_outcome_multi_schedule > 0 {
         println!("note: {single_outcome_multi_schedule} cases had >50 schedules but a single distinct outcome");
     }
